@@ -314,7 +314,12 @@ impl InnerField {
             if let Some(b_len) = b_len {
                 let b_size = boundary.len() + b_len;
                 if len < b_size {
-                    return Poll::Pending;
+                    // a truncated body must end in an error, not in a poll that is never woken
+                    return if payload.eof {
+                        Poll::Ready(Some(Err(Error::Incomplete)))
+                    } else {
+                        Poll::Pending
+                    };
                 } else if &payload.buf[b_len..b_size] == boundary.as_bytes() {
                     // found boundary
                     return Poll::Ready(None);
@@ -330,6 +335,8 @@ impl InnerField {
                 if cur + 4 > len {
                     if cur > 0 {
                         Poll::Ready(Some(Ok(payload.buf.split_to(cur).freeze())))
+                    } else if payload.eof {
+                        Poll::Ready(Some(Err(Error::Incomplete)))
                     } else {
                         Poll::Pending
                     }
